@@ -218,6 +218,20 @@ func rolesSetup(s *rt.Sim, tier string) func() {
 			return
 		}
 		pm := cands[pick("op", len(cands))]
+		// lifecycle (F15, own stream of draws): on a full-duplex connection the local *client* of
+		// the probed protocol is stopped first. That ends one role's conversation; the other role
+		// of the same protocol number stays enabled and must stay reachable.
+		if duplex && what == "request" && rt.Choose("op.x", 2) == 1 {
+			switch pm.label {
+			case "chainsync-ntn":
+				_ = conn.ChainSync().Client.Stop()
+				rt.Hit("roles.sibling-client-stopped")
+			case "blockfetch":
+				_ = conn.BlockFetch().Client.Stop()
+				rt.Hit("roles.sibling-client-stopped")
+			}
+			sleep(oneOf("op", 10*time.Millisecond, 2*time.Second))
+		}
 		frames0 := len(peer.Frames)
 		_ = peer.sendMsg(pm.id, what == "response", sampleBytes(pm.label, pm.typ, 0, 1))
 		sleep(oneOf("op", 5*time.Second, 2*time.Minute))
